@@ -378,6 +378,7 @@ func C13() int {
 	// CLI: pseudonyms visible in -w and -f output must be the in-process ones.
 	c13CLI(s, c, g, P["REDACTED"], names, nC)
 
+	optionHistory(s, c, CoreCorpus(gen.New(c.Seed*83+13), 200))
 	raceVerdict(s, c)
 	if c.Counter("hash_calls_observed") < 500000 {
 		c.Inconclusive(fmt.Sprintf("only %d HashName results observed", c.Counter("hash_calls_observed")))
